@@ -602,7 +602,7 @@ class Rig:
         for p in self.patches:
             p.stop()
 
-    def utxos(self, adapter, address, wires):
+    def utxos(self, adapter, address, wires, keep_caches=False):
         """serve the wire images to the real adapter; ('ok', [UTxO...]) or ('err', exception class name)"""
         S = Services
         S.address = address
@@ -613,7 +613,7 @@ class Rig:
             S.datums.update({k: dec(v) for k, v in w["side"]["datums"]})
         a = self.ad[adapter]
         for c in ("_utxo_cache", "_datum_cache"):
-            if hasattr(a, c):
+            if hasattr(a, c) and not keep_caches:
                 getattr(a, c).clear()
         try:
             return "ok", a.utxos(address)
@@ -817,6 +817,71 @@ def check_valid(ctx, case):
                 ctx.diff("backend.parse/" + adapter, one, model_image(r["ok"]), impl_image(du, adapter))
 
 
+def check_history(ctx, case):
+    """case = {kind: history, adapter: kupo, steps: [[model...], [model...]]}: two successive responses served to ONE adapter
+    instance (the chain advanced in between, so the per-slot UTxO cache does not apply): what is returned for the second
+    response must be what is returned for it by a fresh instance — a UTxO is translated from the response that reports it,
+    not from what an earlier response happened to leave behind"""
+    adapter = case["adapter"]
+    first, second = case["steps"]
+    w1, w2 = [wire(adapter, m) for m in first], [wire(adapter, m) for m in second]
+    WrappedBackend.last_block_slot = 1
+    st_fresh, fresh = rig().utxos(adapter, second[0]["address"], w2)
+    WrappedBackend.last_block_slot = 2
+    rig().utxos(adapter, first[0]["address"], w1)
+    WrappedBackend.last_block_slot = 3
+    st_hist, hist = rig().utxos(adapter, second[0]["address"], w2, keep_caches=True)
+    WrappedBackend.last_block_slot = 1
+    ctx.count(f"history:{adapter}")
+    ctx.case(case)
+    a = [dump_utxo(u) for u in fresh] if st_fresh == "ok" else fresh
+    b = [dump_utxo(u) for u in hist] if st_hist == "ok" else hist
+    if st_fresh != st_hist or (st_hist == "ok" and len(hist) != len(second)):
+        ctx.violation(f"{adapter}: accepting a response depends on an earlier response", case, a, b)
+        return
+    if st_hist != "ok":
+        return
+    # against the reported content itself.  A datum remembered from an earlier response may be attached to an output that
+    # reports only its hash (content-addressed: it IS the preimage), so for that form both answers are right; everything
+    # the second response itself reports must be carried over
+    for m, u, f in zip(second, hist, a):
+        du, exp = dump_utxo(u), expected(m, adapter)
+        if m["dform"] in ("inline", "hash_known"):
+            # the second response carries the datum itself (inline / preimage known to the service): it must be returned,
+            # as a fresh adapter returns it, whatever an earlier response said about that hash
+            want = {"bytes": datum_cbor(m["datum_tree"]).hex()}
+            if f.get("datum") == want and du["datum"] != want:
+                ctx.violation(f"{adapter}: the datum reported by a response is not returned after an earlier response left the "
+                              f"same hash unresolved", case, want, du["datum"])
+                continue
+        for k in ("txid", "index", "address", "datum_hash", "datum", "script"):
+            if k not in exp or du[k] == exp[k]:
+                continue
+            if k == "datum" and m["dform"] == "hash" and exp[k] is None and du[k] == {"bytes": datum_cbor(m["datum_tree"]).hex()}:
+                ctx.count("history:kupo:remembered-preimage-attached")
+                continue
+            ctx.violation(f"{adapter}: after an earlier response, the returned UTxO differs from the reported one in {k} "
+                          f"(a fresh adapter returns {f.get(k)!r})", case, exp[k], du[k])
+
+
+def gen_history(rng):
+    """Kupo: an output holding datum hash H whose preimage the service does not know, then (later) an output holding the
+    same datum inline / with the preimage known; and the reverse order"""
+    m1 = gen_model(rng, "kupo")
+    for _ in range(50):
+        if m1["datum_tree"] is not None and m1["script"] is None:
+            break
+        m1 = gen_model(rng, "kupo")
+    else:
+        return None
+    m2 = gen_model(rng, "kupo", address=m1["address"])
+    m2 = {**m2, "script": None, "datum_tree": m1["datum_tree"], "datum_hash": b2b(datum_cbor(m1["datum_tree"]), 32).hex(),
+          "inline_hash": b2b(datum_cbor(m1["datum_tree"]), 32).hex()}
+    m1 = {**m1, "datum_hash": m2["datum_hash"], "inline_hash": m2["inline_hash"]}
+    forms = rng.choice([("hash", "inline"), ("hash", "hash_known"), ("inline", "hash"), ("hash_known", "hash"), ("hash", "hash")])
+    return {"kind": "history", "adapter": "kupo", "steps": [[{**m1, "dform": forms[0]}], [{**m2, "dform": forms[1]}]]}
+
+
 def check_raw(ctx, case):
     """case = {kind: raw, adapter, address, wire, what}: accept / reject only, model against implementation"""
     adapter = case["adapter"]
@@ -958,6 +1023,8 @@ def dispatch(ctx, case):
         check_valid(ctx, case)
     elif case["kind"] == "raw":
         check_raw(ctx, case)
+    elif case["kind"] == "history":
+        check_history(ctx, case)
 
 
 def flush_findings(ctx):
@@ -1046,6 +1113,11 @@ def run(ctx):
                 dispatch(ctx, {"kind": "valid", "adapter": adapter, "utxos": models})
                 if len(ctx.violations) > 20:
                     break
+            if adapter == "kupo":
+                for _ in range(ctx.budget(150, 2000)):
+                    c = gen_history(rng)
+                    if c is not None:
+                        dispatch(ctx, c)
             for _ in range(n_bad):
                 if len(ctx.violations) > 20:
                     break
